@@ -104,6 +104,7 @@ func freshContainer(v ssa.Value, depth int) bool {
 func checkC08(c *an.Ctx) {
 	c.Rule("C08.1", "ownership (E4): a store to Task.Env / .Variables / .Dir (or to the same fields of an ExecutionContext), or a mutating Set on a container held in those fields, is allowed only on an object or container the function itself allocated (constructor literal, value copy, fresh Merge/With/FromMap result); Task.WithEnv is API and must not be reachable from the scheduler, the config builders or the watcher")
 	c.Rule("C08.2", "pure combinators (E4): Variables.Merge and .With write only to a container allocated in the same activation; in the functions under them no append, element write or map write targets a slice or map that can share backing storage with an operand (loaded from an operand's field, re-sliced without a capacity limit, or parked in the result's field)")
+	c.Rule("C08.4", "shared definition storage (E4 alias analysis, module-wide): no element store, map update on a slice or map reachable from a field of a task.Task the writer did not build itself (loaded from the field, an element of it, a re-slice, or a slice that copy() filled with its reference-typed elements) — the per-stage copy is shallow, such a write leaks into every other user of the task")
 	c.Rule("C08.3", "layering (E5/E2): the runner caller of the scheduler runs a per-stage copy of the task whose Env is [Task.Env < Stage.Env], Variables [Task.Variables < Stage.Variables] and Dir = Stage.Dir when non-empty; Runner.Run receives that copy")
 	c.NotDecided = append(c.NotDecided, "sharing introduced by a caller handing one *Stage to two graphs", "containers reachable through other aliases than the three task fields")
 	p := c.P
@@ -338,6 +339,7 @@ func checkC08(c *an.Ctx) {
 	}
 
 	stageLayering(c, "C08.3")
+	taskStorageWrites(c, "C08.4")
 }
 
 const rule1 = "C08.1"
